@@ -60,7 +60,7 @@ pub fn parts_for(id: &str) -> Option<Vec<Part>> {
         "C14" => vec![part(codecs::DecodersNoPanic, 1_000_000, 20_000_000), part(ndl::NdlNoPanic, 100_000, 3_000_000), part(c14_frames::MalformedFrames, 60_000, 2_000_000)],
         "C19" => vec![part(ndl::NdlRoundTrip, 40_000, 2_000_000), part(ndl::NdlRun, 10_000, 150_000)],
         "C15" => vec![part(c15_ipgen::IpGenHistories, 300_000, 6_000_000), part(c15_dhcp::DhcpLeases, 60_000, 2_000_000)],
-        "C18" => vec![part(codecs::Codecs, 400_000, 8_000_000), part(codecs::CorruptionRejected, 400_000, 8_000_000), part(c18_wire::WireChecksums, 20_000, 600_000)],
+        "C18" => vec![part(codecs::Codecs, 400_000, 8_000_000), part(codecs::CorruptionRejected, 400_000, 8_000_000), part(c18_wire::WireChecksums, 20_000, 600_000), part(tcb_checks::ChecksumsOfTcb, 40_000, 2_000_000)],
         "C20" => vec![part(c20_dns::DnsResolution, 200_000, 6_000_000)],
         _ => return None,
     })
